@@ -45,7 +45,7 @@ LEVEL_NOTE = ("copy(frame=..) receiver-unchanged with a following covariance, th
               "cylindrical names are false of the code (16 known-finding families); heap model hand-written, tied by the correspondence run; Lean kernel + propext/Classical.choice/Quot.sound")
 TECHNIQUE = "Lean 4 proof over an object-graph (heap) model + kernel decide on regenerated name/alias tables; exact model/implementation correspondence"
 TRUSTED = [
-    "harness/props/C15.py extract: Form.param_names, Form.alt, forms._cache, _cache_param_names, the frame registry and the property names of the classes, read from live objects (cross-checked against the Form(...) literals in forms.py) -> Generated/FormTables.lean",
+    "harness/props/C15.py extract: Form.param_names, Form.alt, forms._cache, _cache_param_names, the frame registry and the property names of the classes, read from live objects (cross-checked against the Form(...) literals in forms.py) -> Generated/HeapTables.lean",
     "correspondence: real StateVector/Orbit/Cov objects vs the compiled Lean model on identical operation sequences; after every operation the whole object graph reachable from all variables is compared: "
     "partition of mutable objects by id(), kinds, keys, labels, error kind, and every coordinate buffer bit for bit against the pure evaluation (Form.__call__, Frame.transform on fresh objects) of the model's symbolic value",
     "CPython object identity (id / is), pickle memo semantics, numpy base/owndata semantics",
@@ -589,8 +589,8 @@ def extract(ctx):
            f"def frameKeys : List (String × String) := {pairs(t['frame_keys'])}",
            "def hillKeys : List String := [" + ", ".join(map(_lstr, t["hill_keys"])) + "]",
            "end BeyondVerif.Generated.FormTables"]
-    ch = core.write_if_changed(os.path.join(core.LEAN, "BeyondVerif", "Generated", "FormTables.lean"), "\n".join(out) + "\n")
-    return ["Generated/FormTables.lean"] if ch else []
+    ch = core.write_if_changed(os.path.join(core.LEAN, "BeyondVerif", "Generated", "HeapTables.lean"), "\n".join(out) + "\n")
+    return ["Generated/HeapTables.lean"] if ch else []
 
 
 # ---------------------------------------------------------------- correspondence: real objects vs the heap model
